@@ -48,6 +48,9 @@ def check_trimmed(ctx: Ctx, dtype):
     rng = ctx.rng
     b = rng.choice([0, 1, 1, 2, 3])
     m = rng.randint(2 * b + 1, 2 * b + 6)
+    if rng.random() < 0.2:
+        m = rng.choice([16 * max(b, 1), 16 * max(b, 1) + 5, 40, 64, 100])      # many rows, few of them trimmed
+        ctx.count("trimmed_many_rows")
     n = rng.choice([1, 2, 3, 5])
     H = honest_cluster(rng, m, n, spread=rng.choice([0, 2, 30]))
     frac = rng.random() < 0.5
